@@ -400,6 +400,8 @@ pub struct MarketLive<const A: usize, const L: usize> {
     /// compact and pretty text of the market as it stood before the last reload
     pub last_json: Option<(String, String)>,
     pub json_done: usize,
+    /// a single book's clock was moved through `get_order_book_mut(a).set_time(t)`: the books no longer share one time
+    pub desync: bool,
 }
 
 #[derive(Clone, Debug)]
@@ -484,7 +486,7 @@ impl<const A: usize, const L: usize> MarketLive<A, L> {
         let bk = |i: usize| m.get_order_book(i);
         let t = m.get_time();
         for i in 0..A {
-            if bk(i).get_time() != t { return Some("time"); }
+            if !self.desync && bk(i).get_time() != t { return Some("time"); }
             if m.bid_vols()[i] != bk(i).bid_vol() { return Some("bid_vols"); }
             if m.ask_vols()[i] != bk(i).ask_vol() { return Some("ask_vols"); }
             if m.bid_best_vols()[i] != bk(i).bid_best_vol() { return Some("bid_best_vols"); }
@@ -558,13 +560,19 @@ impl<const A: usize, const L: usize> MarketLive<A, L> {
                 if *b { self.shadows[*a].enable_trading() } else { self.shadows[*a].disable_trading() }
                 self.tradings[*a] = *b;
             }
+            MOp::On(a, Op::Time(t)) => {
+                // one book's clock moved forward through the book handle
+                self.market.get_order_book_mut(*a).set_time(*t);
+                self.shadows[*a].set_time(*t);
+                self.desync = true;
+            }
             MOp::On(a, bop) => {
                 let o = self.market_apply(*a, bop);
                 let os = book_apply(&mut self.shadows[*a], bop);
                 res = o.token();
                 if o.token() != os.token() { sh = "DIVERGE_result".into(); }
             }
-            MOp::Time(t) => { self.market.set_time(*t); for s in self.shadows.iter_mut() { s.set_time(*t); } }
+            MOp::Time(t) => { self.market.set_time(*t); for s in self.shadows.iter_mut() { s.set_time(*t); } self.desync = false; }
             MOp::Trading(b) => {
                 if *b { self.market.enable_trading() } else { self.market.disable_trading() }
                 for s in self.shadows.iter_mut() { if *b { s.enable_trading() } else { s.disable_trading() } }
@@ -627,7 +635,12 @@ impl MGen {
         let n = live.market.get_orders(a).len();
         let k = self.rng.gen_range(0..100);
         let offgrid = self.profile == "malformed";
-        let mut advance = |g: &mut MGen, ops: &mut Vec<MOp>| { g.t += g.rng.gen_range(1..4); ops.push(MOp::Time(g.t)); };
+        let mut advance = |g: &mut MGen, ops: &mut Vec<MOp>| {
+            g.t += g.rng.gen_range(1..4);
+            // now and then only the addressed book's clock is advanced (through its handle); the next
+            // market-level clock change brings all books back together
+            if (g.profile == "reload" || g.profile == "plain") && g.chance(0.08) { ops.push(MOp::On(a, Op::Time(g.t))); } else { ops.push(MOp::Time(g.t)); }
+        };
         let mut price = |g: &mut MGen| {
             let mut p = (g.base + g.rng.gen_range(0..g.n_prices)) * tick;
             if offgrid && tick > 1 && g.chance(0.4) { p += g.rng.gen_range(1..tick); }
@@ -652,7 +665,9 @@ impl MGen {
             advance(self, &mut ops);
             let id = self.rng.gen_range(0..n);
             let p = if self.chance(0.5) { None } else { Some(price(self)) };
-            let v = if self.chance(0.4) { None } else { Some(self.rng.gen_range(1..12)) };
+            // `malformed`: now and then a modification to volume 0 (outside the valid inputs; the market must still
+            // treat it exactly as a stand-alone book does)
+            let v = if self.chance(0.4) { None } else if offgrid && self.chance(0.15) { Some(0) } else { Some(self.rng.gen_range(1..12)) };
             if self.chance(0.5) { ops.push(MOp::On(a, Op::Modify(id, p, v))); } else { ops.push(MOp::On(a, Op::Ev(Ev::Modify(id, p, v)))); }
         } else if k < 92 {
             if self.chance(0.45) {
@@ -708,7 +723,7 @@ pub fn run_market<const A: usize, const L: usize, W: Write>(h: &MarketHeader, g:
     let ticks: [u32; A] = std::array::from_fn(|i| h.ticks[i]);
     let market = Market::<A, L>::new(h.t0, ticks, h.trading);
     let shadows = h.ticks.iter().map(|t| OrderBook::<L>::new(h.t0, *t, h.trading)).collect();
-    let mut live = MarketLive { market, shadows, trading: h.trading, tradings: vec![h.trading; A], scratch, dead: false, last_json: None, json_done: 0 };
+    let mut live = MarketLive { market, shadows, trading: h.trading, tradings: vec![h.trading; A], scratch, dead: false, last_json: None, json_done: 0, desync: false };
     writeln!(w, "I {}", live.obs("u", "ok", "ok")).unwrap();
     let mut emit = |live: &mut MarketLive<A, L>, op: &MOp, w: &mut W| {
         writeln!(w, "O {}", op.line()).unwrap();
